@@ -171,7 +171,9 @@ def strategy():
                                       # under the failsafe page's own asset prefix, but not an asset: missing, refused, a directory
                                       '/clastic_assets/../flaw.py', '/clastic_assets/no-such.css', '/clastic_assets/..hidden',
                                       '/clastic_assets/css/../../x', '/clastic_assets', '/clastic_assets/', '/clastic_assets/../../etc/passwd',
-                                      '/clastic_assets//x']),
+                                      '/clastic_assets//x',
+                                      # control characters in the decoded path (D19: '/\n' used to be answered 302)
+                                      '/\n', '/a/b\n', '/\n/', '/a\nb', '/x\r', '/\t', '/a\x00b', '/\x0b\x0c', '/a\x85b/\u2028', '/clastic_assets/x\ny', '/\n\n']),
                      st.text(alphabet='ab/.<>9zq%', max_size=10).map(lambda s: '/' + s).filter(lambda p: not p.lstrip('/').startswith('clastic_assets')))
     return st.tuples(st.one_of(real, real, syn, free, free, other), files, path, st.sampled_from(['GET', 'GET', 'POST', 'PUT', 'DELETE']))
 
